@@ -7,6 +7,8 @@
 //! Exit codes: 0 property held, 1 violation, 2 harness error.
 
 mod c08;
+mod c10;
+mod procworld;
 mod driver;
 mod gen;
 mod json;
@@ -21,11 +23,12 @@ use driver::{Property, Tier};
 fn property(id: &str) -> Option<Box<dyn Property>> {
     match id {
         "C08" => Some(Box::new(c08::C08)),
+        "C10" => Some(Box::new(c10::C10)),
         _ => None,
     }
 }
 
-const ALL: &[&str] = &["C08"];
+const ALL: &[&str] = &["C08", "C10"];
 
 fn main() {
     c08::install_quiet_panic_hook();
